@@ -1,4 +1,5 @@
 import PySMT.Proofs.C11Main
+import PySMT.Proofs.C11Simp
 /-!
 # C11 — CNF conversions and Ackermannization: advertised form and model-by-model equisatisfiability
 
@@ -58,6 +59,47 @@ theorem polCnf_sound (E : CNF.Env) (u : Sym → Option Term) (t : Term) (J : Int
     (hkeys : KeysFresh E u t) (hs : SimpSym E.simp) (hσ : SimpSound E.simp t J)
     (hR : PolCNF.convert E t = some R) (hJ : eval J (formulaOf R) = .b true) : eval J t = .b true :=
   Proofs.polCnf_sound E u t J R hkeys hs hσ hR hJ
+
+/-! ### the CNF theorems with the real simplifier model `PySMT.Simplifier.simp` (C01) in place of the parameter
+
+`SimpSide key t I` (exact side condition, `Proofs/C11Simp.lean`): every term of `simpArgs key t` — the terms the
+CNFizer hands to `simplify` when it negates a literal, a computable list — is a definition symbol, or a `wf`
+Boolean term of C01's fragment `inFrag` whose symbols are symbols of `t` and in which `I` evaluates no division
+by zero.  For inputs whose atoms are already simplified these are the atoms of `t` at Boolean positions.
+`ShapeSide`: atoms handed to the simplifier come back as literals or constants (fails only as in finding F51). -/
+
+theorem cnf_sound_simp (key : Term → Sym) (u : Sym → Option Term) (t : Term) (J : Interp) (R : List Clause)
+    (hkeys : KeysFresh ⟨key, Simplifier.simp⟩ u t) (hJ : J.WF) (hside : Proofs.SimpSide key t J)
+    (hR : CNF.convert ⟨key, Simplifier.simp⟩ t = some R) (h : eval J (formulaOf R) = .b true) :
+    eval J t = .b true :=
+  Proofs.cnf_sound_simp key u t J R hkeys hJ hside hR h
+
+theorem cnf_complete_simp (key : Term → Sym) (u : Sym → Option Term) (t : Term) (I : Interp) (R : List Clause)
+    (hkeys : KeysFresh ⟨key, Simplifier.simp⟩ u t) (hI : I.WF) (hside : Proofs.SimpSide key t I)
+    (hR : CNF.convert ⟨key, Simplifier.simp⟩ t = some R) (ht : eval I t = .b true) :
+    eval (ext u I) (formulaOf R) = .b true ∧ SameOn t I (ext u I) :=
+  Proofs.cnf_complete_simp key u t I R hkeys hI hside hR ht
+
+theorem polCnf_sound_simp (key : Term → Sym) (u : Sym → Option Term) (t : Term) (J : Interp) (R : List Clause)
+    (hkeys : KeysFresh ⟨key, Simplifier.simp⟩ u t) (hJ : J.WF) (hside : Proofs.SimpSide key t J)
+    (hR : PolCNF.convert ⟨key, Simplifier.simp⟩ t = some R) (h : eval J (formulaOf R) = .b true) :
+    eval J t = .b true :=
+  Proofs.polCnf_sound_simp key u t J R hkeys hJ hside hR h
+
+theorem polCnf_complete_simp (key : Term → Sym) (u : Sym → Option Term) (t : Term) (I : Interp) (R : List Clause)
+    (hkeys : KeysFresh ⟨key, Simplifier.simp⟩ u t) (hI : I.WF) (hside : Proofs.SimpSide key t I)
+    (hR : PolCNF.convert ⟨key, Simplifier.simp⟩ t = some R) (ht : eval I t = .b true) :
+    eval (ext u I) (formulaOf R) = .b true ∧ SameOn t I (ext u I) :=
+  Proofs.polCnf_complete_simp key u t I R hkeys hI hside hR ht
+
+theorem cnf_shape_simp (key : Term → Sym) (t : Term) (hwf : t.wf = true) (hside : Proofs.ShapeSide key t)
+    (R : List Clause) (hR : CNF.convert ⟨key, Simplifier.simp⟩ t = some R) : shapeClauses R = true :=
+  Proofs.cnf_shape_simp key t hwf hside R hR
+
+theorem polCnf_shape_simp (key : Term → Sym) (t : Term) (hwf : t.wf = true) (hqf : t.isQF = true)
+    (hside : Proofs.ShapeSide key t) (R : List Clause)
+    (hR : PolCNF.convert ⟨key, Simplifier.simp⟩ t = some R) : shapeClauses R = true :=
+  Proofs.polCnf_shape_simp key t hwf hqf hside R hR
 
 /-! ### Ackermannization -/
 
@@ -154,6 +196,20 @@ example (E : CNF.Env) : (CNF.enc E t0).2.length = 6 ∧ (PolCNF.encP E t0 true).
 example : allTrue.WF ∧ eval allTrue t0 = .b true := by
   refine ⟨allTrue_wf, (tv_iff _ _).mp ?_⟩
   simp [t0, p, q, tv_and, tv_or, tv_not, Term.var, tv_sym, allTrue, Sym.var]
+
+-- the side conditions of the `*_simp` theorems hold on `t0` (whatever the key function and interpretation):
+-- the simplifier only sees symbols there
+example (key : Term → Sym) (I : Interp) : Proofs.SimpSide key t0 I ∧ Proofs.ShapeSide key t0 := by
+  have hsym : ∀ s : Sym, Simplifier.simp (Term.node .symbol [] (.sym s)) = Term.node .symbol [] (.sym s) :=
+    Proofs.simp_sym
+  have hs : ∀ x ∈ Proofs.simpArgs key t0, ∃ s, x = Term.sym s := by
+    simp [hsym, Proofs.simpArgs, Proofs.negCalls, Proofs.negArg, CNF.enc, t0, p, q, Term.var, Term.sym, isTrueC, isFalseC,
+      CNF.negLit, CNF.simpNot, Term.mkNot]
+  constructor
+  · intro x hx; exact Or.inl (hs x hx)
+  · intro x hx _
+    obtain ⟨s, rfl⟩ := hs x hx
+    rw [Proofs.simp_sym]; exact Or.inl rfl
 
 -- Ackermannization of `t1` sees three applications and emits the consistency constraint of the
 -- two applications of `f`
